@@ -1,7 +1,7 @@
 (* C20 — lazily loaded (virtual) trees behave exactly like materialised trees.
    Property theorems only.  consistent src m : src is a root-keyed store of the materialised tree m.
    vrel v m : v is m with some subtrees replaced by virtual nodes carrying their roots. *)
-Require Import RM.Base RM.Gindex RM.Tree RM.TreeProofs RM.Types RM.ModelCodec RM.ModelMut RM.VirtualProofs RM.VirtualViews.
+Require Import RM.Base RM.Gindex RM.Tree RM.TreeProofs RM.Types RM.ModelCodec RM.ModelMut RM.VirtualProofs RM.VirtualViews RM.ModelStore RM.VirtualStore.
 
 Theorem C20_root : forall H src v m, vrel H src v m -> root H v = root H m.
 Proof. exact vrel_root. Qed.
@@ -56,7 +56,7 @@ Print Assumptions C20_virtual_root_node.
 Print Assumptions C20_memo.
 Print Assumptions C20_nonvacuous.
 
-(* ---- view level (VirtualViews.v).  vr v m: v is m with subtrees replaced by virtual nodes, m materialised.
+(* ---- view level (VirtualViews.v).  vr v m: v is m with subtrees replaced by virtual nodes over the consistent source.
    sim R rv rm: the virtual side gives the SAME failure as the materialised side, or related successes.  Every view
    operation of the model computes on the virtual tree what it computes on the materialised tree: the same data, the
    same errors, and again related (equally rooted) backings, so operations compose into histories. ---- *)
@@ -69,15 +69,15 @@ Proof. exact vr_same_root. Qed.
 Theorem C20_view_get : forall H src t v m i, vr H src v m -> sim (vr H src) (view_get H src t v i) (view_get H src t m i).
 Proof. exact vr_view_get. Qed.
 
-Theorem C20_view_set : forall H src t v m i x, vr H src v m -> novirt x ->
-  sim (vr H src) (view_set H src t v i x) (view_set H src t m i x).
+Theorem C20_view_set : forall H src t v m i xv xm, vr H src v m -> vr H src xv xm ->
+  sim (vr H src) (view_set H src t v i xv) (view_set H src t m i xm).
 Proof. exact vr_view_set. Qed.
 
 Theorem C20_lengths : forall H src t v m, vr H src v m -> sim eq (view_len H src t v) (view_len H src t m).
 Proof. exact vr_view_len. Qed.
 
-Theorem C20_list_append : forall H src t v m x, vr H src v m -> novirt x ->
-  sim (vr H src) (list_append H src t v x) (list_append H src t m x).
+Theorem C20_list_append : forall H src t v m xv xm, vr H src v m -> vr H src xv xm ->
+  sim (vr H src) (list_append H src t v xv) (list_append H src t m xm).
 Proof. exact vr_list_append. Qed.
 
 Theorem C20_list_pop : forall H src t v m, vr H src v m -> sim (vr H src) (list_pop H src t v) (list_pop H src t m).
@@ -120,3 +120,28 @@ Theorem C20_encoding : forall H src t v m, vr H src v m -> ser_impl H src t v = 
 Proof. exact vr_ser. Qed.
 
 Print Assumptions C20_encoding.
+
+(* ---- store level (VirtualStore.v): views WITH their hooks.  srel sv sm: cell by cell the same type and hook and
+   related backings.  Any command — child reads, union values, copies, every mutation with its propagation through the
+   hook chain — gives the same result on both stores and keeps them related; hence whole histories, through any of
+   the held views in any order, agree, and every held view has the same root and the same encoding on both sides. *)
+Theorem C20_store_start : forall H src t m, consistent H src m ->
+  srel H src [{| cty := t; cback := VirtN (root H m); chook := HNone |}] [{| cty := t; cback := m; chook := HNone |}].
+Proof. exact srel_start. Qed.
+
+Theorem C20_store_command : forall H src sv sm c, srel H src sv sm -> rrel H src (run_cmd H src sv c) (run_cmd H src sm c).
+Proof. exact run_cmd_sim. Qed.
+
+Theorem C20_store_history : forall H src cs sv sm, srel H src sv sm ->
+  fst (run_all H src sv cs) = fst (run_all H src sm cs) /\ srel H src (snd (run_all H src sv cs)) (snd (run_all H src sm cs)).
+Proof. exact run_all_sim. Qed.
+
+Theorem C20_store_observed : forall H src sv sm, srel H src sv sm -> forall u cm, nth_error sm u = Some cm ->
+  exists cv, nth_error sv u = Some cv /\ cty cv = cty cm /\ root H (cback cv) = root H (cback cm) /\
+             ser_impl H src (cty cv) (cback cv) = ser_impl H src (cty cm) (cback cm).
+Proof. exact srel_observed. Qed.
+
+Print Assumptions C20_store_start.
+Print Assumptions C20_store_command.
+Print Assumptions C20_store_history.
+Print Assumptions C20_store_observed.
